@@ -104,3 +104,14 @@ MUTANTS["C08"] = [
     ("refusal_valueerror", "lentil/plane.py", "            raise TypeError(f\"can't multiply Wavefront with ptype \" \\", "            raise ValueError(f\"can't multiply Wavefront with ptype \" \\"),
     ("tilt_mutates_input", "lentil/plane.py", "        wavefront = super().multiply(wavefront)\n        for field in wavefront.data:\n            field.tilt.append(self)\n        return wavefront", "        for field in wavefront.data:\n            field.tilt.append(self)\n        wavefront = super().multiply(wavefront)\n        return wavefront"),
 ]
+MUTANTS["C11"] = [
+    ("radial_sign", "lentil/zernike.py", "Rk = ((-1) ** k * factorial(n-k) /", "Rk = ((-1) ** (k+k//3) * factorial(n-k) /"),
+    ("norm_n_plus_2", "lentil/zernike.py", "                Z = np.sqrt(n+1) * R(m, n, rho) * mask\n", "                Z = np.sqrt(n+2) * R(m, n, rho) * mask\n"),
+    ("sqrt2_missing_sin", "lentil/zernike.py", "Z = np.sqrt(2) * np.sqrt(n+1) * R(m, n, rho) * np.sin(m*theta) * mask", "Z = np.sqrt(n+1) * R(m, n, rho) * np.sin(m*theta) * mask"),
+    ("cos_sin_swapped", "lentil/zernike.py", "            Z = R(m, n, rho) * np.cos(m*theta) * mask", "            Z = R(m, n, rho) * np.sin(m*theta) * mask"),
+    ("row_m_off", "lentil/zernike.py", "        r = int(j - k - 1)", "        r = int(j - k)"),
+    ("center_half", "lentil/zernike.py", "center = np.asarray(mask.shape)//2", "center = np.asarray(mask.shape)/2"),
+    ("rho_not_normalised_to_mask", "lentil/zernike.py", "    rho = r/np.max(r*mask)", "    rho = r/np.max(r)"),
+    ("index_float_k", "lentil/zernike.py", "    n = int(np.ceil((-1 + np.sqrt(1 + 8*j)) / 2) - 1)", "    n = int(np.ceil((-1 + np.sqrt(np.float32(1 + 8*j))) / 2) - 1)"),
+    ("sine_sign_high_order", "lentil/zernike.py", "Z = np.sqrt(2) * np.sqrt(n+1) * R(m, n, rho) * np.sin(m*theta) * mask", "Z = np.sqrt(2) * np.sqrt(n+1) * R(m, n, rho) * np.sin((m if n < 7 else -m)*theta) * mask"),
+]
